@@ -439,3 +439,30 @@ package router
 //@   ensures case count:  ret1 == nil && splitN(dateRange) == 2 ==> slen(splitA(dateRange)) == 6 && slen(splitB(dateRange)) == 6
 //@        && ((hiY(dateRange) - loY(dateRange)) * 12 + hiM(dateRange) - loM(dateRange) + 1 >= 0 ==> len(ret0) == (hiY(dateRange) - loY(dateRange)) * 12 + hiM(dateRange) - loM(dateRange) + 1)
 //@   ensures case listed: ret1 == nil && splitN(dateRange) == 2 && 1 <= loM(dateRange) && loM(dateRange) <= 12 && 0 <= loY(dateRange) ==> forall(k, 0, len(ret0), ret0[k] == ymOf(loY(dateRange) * 12 + loM(dateRange) - 1 + k))
+
+// ---------------------------------------------------------------- C10 / C04 mycat and global-table layouts
+// the mycat and global-table variants are the hash layout plus a database-count check: when they succeed the table list and the
+// table -> slice map are exactly the hash layout's (every listed table once, in exactly one slice), and the number of tables equals
+// the number of physical databases named (getRealDatabases: regexp expansion, trusted as an uninterpreted count)
+//@ pure realDBs(dbs []string) int
+//@ trusted github.com/XiaoMi/Gaea/proxy/router.getRealDatabases
+//@   params dbs
+//@   pure-call
+//@   ensures ret1 == nil ==> len(ret0) == realDBs(dbs)
+//@ constglobal errors.ErrLocationsCount
+//@ axiom errLocationsCount: errors.ErrLocationsCount != nil
+//@ property C10: parseMycatHashRuleSliceInfos, parseGlobalTableRuleSliceInfos
+//@ func parseMycatHashRuleSliceInfos
+//@   requires len(locations) <= 1024 && forall(k, 0, len(locations), 0 <= locations[k] && locations[k] <= 1<<20)
+//@   assigns \nothing
+//@   ensures case count:   ret2 == nil ==> len(locations) == len(slices) && len(ret1) == realDBs(databases)
+//@   ensures case listed:  ret2 == nil ==> len(ret0) == psum(locations, len(locations)) && forall(q, 0, len(ret0), ret0[q] == q)
+//@   ensures case domain:  ret2 == nil ==> forall(t int, has(ret1, t) <==> (0 <= t && t < psum(locations, len(locations))))
+//@   ensures case layout:  ret2 == nil ==> forall(k, 0, len(locations), forall(t int, psum(locations, k) <= t && t < psum(locations, k + 1) ==> ret1[t] == k))
+//@ func parseGlobalTableRuleSliceInfos
+//@   requires len(locations) <= 1024 && forall(k, 0, len(locations), 0 <= locations[k] && locations[k] <= 1<<20)
+//@   assigns \nothing
+//@   ensures case count:   ret2 == nil ==> len(locations) == len(slices) && (len(databases) != 0 ==> len(ret1) == realDBs(databases))
+//@   ensures case listed:  ret2 == nil ==> len(ret0) == psum(locations, len(locations)) && forall(q, 0, len(ret0), ret0[q] == q)
+//@   ensures case domain:  ret2 == nil ==> forall(t int, has(ret1, t) <==> (0 <= t && t < psum(locations, len(locations))))
+//@   ensures case layout:  ret2 == nil ==> forall(k, 0, len(locations), forall(t int, psum(locations, k) <= t && t < psum(locations, k + 1) ==> ret1[t] == k))
